@@ -82,6 +82,8 @@ def build(tier):
                             timeout=400, flags=[], functions=[QH + ":compute_rotation"], expect_classes=["rotation:"]))
     from props import kernels
     groups += kernels.qr_groups(tier, report, pre, rot)
+    from props import guards
+    groups += guards.groups(PROP, report)
     meta = {"level": "proof", "trusted_base": ["cbmc 6.11.0", "kissat", "cadical", "extractor"],
             "assumptions": ["IEEE-754 binary32/binary64 round-to-nearest as modelled by CBMC; sqrt correctly rounded", "pow(eps, 0.25) evaluated natively at extraction time",
                             "matrix kernels are BOUNDED stand-ins (concrete n, full unwinding) and are listed separately - never counted as proved"],
